@@ -2,7 +2,7 @@
 # usage: tools/try_seed.sh <property id> <dir with patch.diff demo.c demo.sh> [tier]
 # Confirms a seeded change in its scratch worktree (tests pass, demo fails with / passes without), then applies it
 # to /repo, runs the property's check, and undoes it. Prints a one-line verdict.
-id=$1; d=$2; tier=${3:-quick}; wt=/tmp/mut/$id; pid=${id%b}
+id=$1; d=$2; tier=${3:-quick}; wt=/tmp/mut/$id; pid=${id%[bc]}
 set -o pipefail
 cd $wt || exit 9
 git -C $wt checkout -q -- . 2>/dev/null; git -C $wt apply $d/patch.diff || { echo "SEED $id: patch does not apply to worktree"; exit 9; }
@@ -17,5 +17,6 @@ git -C /repo diff --quiet || { echo "/repo is dirty"; exit 9; }
 git -C /repo apply $d/patch.diff || { echo "SEED $id: patch does not apply to /repo"; exit 9; }
 cd /verif && ./check $pid --tier $tier > $d/check_$tier.log 2>&1; rc=$?
 git -C /repo checkout -- .
+git -C /verif checkout -- evidence/$pid.json 2>/dev/null    # the evidence of a run on a changed tree is not evidence
 echo "SEED $id: check($tier) exit=$rc  $(grep -c '^VIOLATION' $d/check_$tier.log) violation line(s); $(tail -1 $d/check_$tier.log | cut -c1-160)"
 grep '^VIOLATION' $d/check_$tier.log | head -3 | cut -c1-330
